@@ -55,6 +55,7 @@ struct chdr {
         int arch;
         int variant;
         uint64_t seed;
+        int focus; /* -1 mixed history; else index of the out-of-order manager most jobs go to */
         long crash_at;
         /* primary -> */
         long total_calls;     /* dry run: number of scheduler calls of the whole history */
@@ -223,11 +224,16 @@ run_primary(struct mmgr **out_mm)
         for (int i = 0; i < n; i++) {
                 struct genopt g;
                 const struct suite *cs, *hs;
-                pick(&r, &cs, &hs);
+                int fdir = 0;
+                if (H->focus >= 0 && rng_below(&r, 10) < 8)
+                        item_ooo_by_index(H->focus, &cs, &hs, &fdir); /* fill the lanes of one out-of-order manager */
+                else
+                        pick(&r, &cs, &hs);
                 genopt_default(&g);
                 g.slot = i;
                 g.pl = PL_PLAIN;
                 g.max_len = 0;
+                g.dir = fdir;
                 g.len = rng_below(&r, 3) ? 16 * (1 + (long) rng_below(&r, 12)) : 1 + (long) rng_below(&r, 700);
                 if (cs && (cs->cipher == IMB_CIPHER_KASUMI_UEA1_BITLEN || cs->cipher == IMB_CIPHER_SNOW3G_UEA2_BITLEN ||
                            cs->cipher == IMB_CIPHER_ZUC_EEA3))
@@ -459,10 +465,12 @@ secondary_main(int fd)
 }
 
 /* ------------------------------------------------------------------ driver */
+static int cur_focus = -1;
 static void
 hdr_reset(int cfg, uint64_t seed, long crash_at)
 {
         memset(H, 0, sizeof *H);
+        H->focus = cur_focus;
         H->magic = 0x494d42435241ULL;
         H->cfg = cfg;
         H->flags = g_cfgs[cfg].flags;
@@ -519,6 +527,9 @@ eng_crash(void)
                 int v = (int) (cs % g_nvariants);
                 int cfg = g_variant_cfg[v];
                 uint64_t seed = g_opt.seed * 7919ULL + (uint64_t) cs * 104729ULL;
+                /* the first variants x managers histories walk systematically through (variant, out-of-order manager):
+                 * most jobs of the history go to that manager so that all its lanes are occupied at the crash points */
+                cur_focus = (cs / g_nvariants) < 2L * item_ooo_count() ? (int) ((cs / g_nvariants) % item_ooo_count()) : ((cs & 1) ? (int) (seed % (uint64_t) item_ooo_count()) : -1);
                 if (g_opt.cfg_only >= 0 && cfg != g_opt.cfg_only)
                         continue;
                 g_case_no = cs;
@@ -630,6 +641,8 @@ eng_crash(void)
                                 cov_hit("crash_state", "%s|after-%s|inflight%d|%s", variant_name(H->variant), ck[H->last_call_kind],
                                         H->n_inflight > 8 ? 9 : H->n_inflight, kind == 0 ? "same" : kind == 1 ? "fork" : "exec");
                                 cov_hit("crash_point", "%s|%llu|%ld|%d", variant_name(H->variant), (unsigned long long) seed, c, kind);
+                                if (H->focus >= 0)
+                                        cov_hit("crash_focus", "%s|ooo%d|inflight%d", variant_name(H->variant), H->focus, H->n_inflight > 16 ? 17 : H->n_inflight);
                                 cov_count("jobs_recovered", (uint64_t) H->sec_returned_n);
                                 cov_count("followup_jobs", (uint64_t) H->sec_followup_jobs);
                                 for (int i = 0; i < H->n_inflight && i < 300; i++)
